@@ -10,6 +10,33 @@ import sympy
 from .tree import key, written_roots, ASSIGN_OPS
 
 
+def _read_only_argument(ref):
+    """is this variable reference merely passed by value / const reference to a call (so that nothing obtained from the call is a
+    view onto the variable that could be written through)?"""
+    from .tree import _split_sig
+
+    child, p = ref, ref.parent
+    while p is not None and p.k == "Cast":
+        child, p = p, p.parent
+    if p is None or not p.is_call():
+        return False
+    if p.call_object() is child:
+        return False
+    args = p.call_args()
+    if p.k == "CXXOperatorCallExpr" and not p.callee_info.get("cls"):
+        args = p.c
+    sig = _split_sig(p.callee_info.get("sig", ""))
+    for i, a in enumerate(args):
+        if a is child and i < len(sig):
+            t = sig[i].strip()
+            if t.endswith("&&"):
+                return False
+            if not t.endswith("&") and not t.endswith("*"):
+                return True  # by value
+            return t.startswith("const ") or " const &" in t
+    return False
+
+
 class LocalDefs:
     """flow-insensitive definition table of the locals of one function"""
 
@@ -34,7 +61,7 @@ class LocalDefs:
                 continue
             if not vd.c:
                 continue
-            srcs = {m.get("d") for m in vd.c[0].walk() if m.k == "DeclRefExpr" and m.get("dk") in ("local", "param")}
+            srcs = {m.get("d") for m in vd.c[0].walk() if m.k == "DeclRefExpr" and m.get("dk") in ("local", "param") and not _read_only_argument(m)}
             if len(srcs) == 1:
                 self.view_of[d] = srcs.pop()
         for d, x in self.view_of.items():
